@@ -346,7 +346,41 @@ def f_fwd():
             [["before", "W", "N", None]])
 
 
+def f_xmod(small=True):
+    """cross-module shapes: two transactions living in two *different* TModules, with the same structure positions in both
+    modules so that only the module identity separates their control paths, calling methods defined in a third module; every
+    pair of body templates.  Plus transactions *defined* under matching alternatives of look-alike structures in different
+    modules, and mid methods of other modules calling a leaf in the If / the Else of their own first conditional."""
+    meths = ["M0", "M1"]
+    bs = bodies(meths, small=small)
+    for nx in ((False, False), (False, True)):
+        mdefs = [M(m, nx=nx[i]) for i, m in enumerate(meths)]
+        for b0 in bs:
+            for b1 in bs:
+                yield D([mdefs, [T("T0", b0)], [T("T1", b1)]])
+    m0 = M("M0")
+    c = [call("M0")]
+    t0, t1 = T("T0", c), T("T1", c)
+    a1 = [asg("comb")]
+    yield D([[m0, If([t0], a1, has_else=True)], [If(a1, [t1], has_else=True)]])
+    yield D([[m0, If([t0])], [If(a1, [t1], has_else=True)]])
+    yield D([[m0, If([t0], a1)], [If(a1, [t1])]])
+    yield D([[m0, Sw(1, [(0, [t0]), (1, a1)])], [Sw(1, [(0, a1), (1, [t1])])]])
+    yield D([[m0, Fsm(([t0], 1, "in"), (a1, 0, "in"))], [Fsm((a1, 1, "in"), ([t1], 0, "in"))]])
+    yield D([[m0], [If([t0], a1, has_else=True)], [If(a1, [t1], has_else=True)]])
+    for nxa in (False, True):
+        ma = M("A", [If([call("M0")], a1, has_else=True)], nx=nxa)
+        mb = M("B", [If(a1, [call("M0")], has_else=True)], nx=nxa)
+        yield D([[m0], [ma, T("T0", [call("A")])], [mb, T("T1", [call("B")])]])
+        yield D([[m0], [ma, mb], [T("T0", [call("A")]), T("T1", [call("B")])]])
+        yield D([[m0], [ma], [mb], [T("T0", [call("A"), call("B")])]])
+    # one transaction, two calls of one exclusive method through nested bodies of different modules is not expressible
+    # (a body belongs to one module); the remaining single-root shape: a nested transaction in another alternative
+    yield D([[m0, T("T0", [If([call("M0")], [T("N0", c)], has_else=True)])], [T("T1", [If(a1, c, has_else=True)])]])
+
+
 FAMILIES = {
+    "xmod": f_xmod,
     "flat": f_flat, "chain": f_chain, "ctrl": f_ctrl, "rel": f_rel, "nest": f_nest, "val": f_val, "prov": f_prov,
     "bad": f_bad, "fwd": f_fwd,
 }
